@@ -527,6 +527,112 @@ func genRetention(r *vh.Rng, seq *int) *hcase {
 	return c
 }
 
+// retention-names: what stands in <home>/logs and how the logger is configured is unusual, the
+// statement is the same — retention removes the logger's own dated FILES of ITS logs directory and
+// nothing else.  (a) directories (empty and not) named exactly like old own dated logs; (b) a home
+// path whose last element carries a glob metacharacter, next to a sibling home whose name that
+// pattern would match, holding old files with the very same names; (c) a log id carrying a
+// metacharacter, next to files of the id it would match as a pattern.
+var metaHomes = []struct{ home, twin string }{{"app[1]", "app1"}, {"a?c", "abc"}, {"st*r", "star"}, {"app[1-3]", "app2"},
+	{"x\\[y", "x[y"}, {"home with blanks", "homewithblanks"}, {"app[^a]", "appb"}, {"[a]pp", "app"}}
+var metaLogIDs = []struct{ id, victim string }{{"wh?tap", "whatap"}, {"what*", "whatap"}, {"[w]hatap", "whatap"}, {"w\\hatap", "whatap"},
+	{"wh[a-z]tap", "whatap"}, {"*", "RUM"}, {"wha[^x]ap", "whatap"}}
+
+func genRetentionNames(r *vh.Rng, seq *int) *hcase {
+	c, b := newCase(r, "retention-names", seq)
+	kind := r.Intn(3)
+	victim := ""
+	if kind == 1 || r.Chance(20) {
+		h := metaHomes[r.Intn(len(metaHomes))]
+		c.Home, c.Twin = h.home, h.twin
+	}
+	if kind == 2 || r.Chance(20) {
+		m := metaLogIDs[r.Intn(len(metaLogIDs))]
+		c.LogID, victim = m.id, m.victim
+	}
+	b.seeds(r.Chance(50))
+	id, on := c.LogID, c.Oname
+	u := unitOf(c.T0)
+	has := func(name string) bool {
+		for _, s := range c.Seeds {
+			if s.Name == name {
+				return true
+			}
+		}
+		return false
+	}
+	ages := []int64{100, 9, 8, 400, 31, 1, 0, int64(r.Intn(60))}
+	// (a) directories named like own dated logs
+	if kind == 0 || r.Chance(40) {
+		for _, age := range ages {
+			for _, o2 := range []string{on, "archive", "dir"} {
+				name := id + "-" + o2 + "-" + dayStr(u-age) + ".log"
+				if age == 0 && o2 == on {
+					continue // the name of the file the logger opens
+				}
+				if has(name) || !r.Chance(35) {
+					continue
+				}
+				inside := ""
+				if r.Chance(40) {
+					inside = vh.Hex([]byte("kept by somebody"))
+				}
+				c.Seeds = append(c.Seeds, seed{Name: name, Dir: true, Content: inside})
+			}
+		}
+		c.Seeds = append(c.Seeds, seed{Name: id + "-" + on + "-" + dayStr(u-200) + ".d", Dir: true})
+	}
+	// own old files that must go, whatever else is unusual
+	for _, age := range []int64{100, 9} {
+		if name := id + "-" + on + "-" + dayStr(u-age) + ".log"; !has(name) {
+			c.Seeds = append(c.Seeds, seed{Name: name, Content: content(r)})
+		}
+	}
+	// (b) the sibling home: same names, same ages
+	if c.Twin != "" {
+		for _, age := range ages {
+			if r.Chance(70) {
+				c.TwinSeeds = append(c.TwinSeeds, seed{Name: id + "-" + on + "-" + dayStr(u-age) + ".log", Content: content(r)})
+			}
+		}
+		c.TwinSeeds = append(c.TwinSeeds, seed{Name: id + "-other-" + dayStr(u-300) + ".log", Content: content(r)}, seed{Name: "unrelated.log", Content: content(r)})
+	}
+	// (c) files of the id that the log id would match if it were read as a pattern
+	if victim != "" {
+		for _, age := range ages {
+			if name := victim + "-" + on + "-" + dayStr(u-age) + ".log"; r.Chance(60) && !has(name) {
+				c.Seeds = append(c.Seeds, seed{Name: name, Content: content(r)})
+			}
+		}
+		if name := victim + "-other-" + dayStr(u-300) + ".log"; !has(name) {
+			c.Seeds = append(c.Seeds, seed{Name: name, Content: content(r)})
+		}
+	}
+	n := 1 + r.Intn(4)
+	for i := 0; i < n; i++ {
+		if r.Chance(25) {
+			b.cfg(r.Chance(85), r.PickInt([]int{1, 2, 7, 7, 30, 0}), r.PickInt([]int{0, 10, 60}), r.PickStr(levelStrs))
+		}
+		switch r.Intn(4) {
+		case 0, 3:
+			b.adv(r.Pick64([]int64{60001, 60001, 120000}))
+		case 1:
+			b.adv(dayMs * int64(r.Intn(10)))
+		case 2:
+			b.toMidnight(r.Pick64([]int64{0, 60001}))
+		}
+		if r.Chance(25) {
+			b.clr()
+		} else {
+			b.proc()
+		}
+		if r.Chance(40) {
+			b.randLog()
+		}
+	}
+	return c
+}
+
 func (b *builder) readNames() []string {
 	c := b.c
 	names := []string{"../secret.txt", "../logsx/y.log", "../../../../../../../../etc/hostname", "@home/secret.txt", "@home/logs/missing.log",
